@@ -348,7 +348,6 @@ func (q *request) applies() bool { return q.Apply == 0 || q.Apply == 3 }
 // declined: the user answers "n" at the confirmation prompt
 func (q *request) declined() bool { return q.Prompt == 2 || q.Prompt == 3 }
 
-
 func (q *request) pays() []dest {
 	return append(append([]dest{}, q.Send...), q.Batch...)
 }
@@ -595,6 +594,14 @@ func genRequest(r *vlib.Rand, w *wcfg, st *state) *request {
 			fmt.Fprintf(&b, "%s=%s\n", d.Addr, d.AmtStr)
 		}
 		q.BatchTxt = b.String()
+		// how text files end in practice: with a line feed, without one, with CR LF (a blank line is a format error for the
+		// wallet - "Error in the batch file line n", nothing written - and is not offered)
+		switch r.Intn(4) {
+		case 0:
+			q.BatchTxt = strings.TrimSuffix(q.BatchTxt, "\n")
+		case 1:
+			q.BatchTxt = strings.ReplaceAll(q.BatchTxt, "\n", "\r\n")
+		}
 	}
 	// what must be covered
 	need := new(big.Int).Set(fee)
